@@ -96,6 +96,40 @@ Definition write_record (A : name) (chunks : list bytes) (flt crash : option int
       end
   end.
 
+(* ---- a whole run of the recorder: appends one after another ----
+   Each attempt has its own chunking and its own (at most one) injected fault; the
+   recorder carries on after an OSError (the caller of write_record decides), so the
+   next append starts from whatever directory the previous one left. *)
+Definition state_of (r : result) : fs :=
+  match r with Completed s | Raised s | Crashed s => s end.
+
+Definition attempt := (list bytes * option interrupt)%type.
+
+Fixpoint run_history (A : name) (h : list attempt) (s : fs) : fs :=
+  match h with
+  | [] => s
+  | (chunks, flt) :: r => run_history A r (state_of (write_record A chunks flt None s))
+  end.
+
+(* number of primitives before the final unlink: create J, write J, close J, open A, writes, close A *)
+Definition n_main (chunks : list bytes) : nat := 5 + List.length chunks.
+
+(* the record of this attempt is in the archive afterwards: no fault, or a fault that
+   came only at (or was planned after) the final unlink of the journal *)
+Definition survives (e : attempt) : bool :=
+  match snd e with
+  | None => true
+  | Some (Intr k _ _) => Nat.leb (n_main (fst e)) k
+  end.
+
+(* the attempt leaves no journal behind: every case except an error of the unlink itself that
+   did not take effect *)
+Definition clean (e : attempt) : bool :=
+  match snd e with
+  | None => true
+  | Some (Intr k d _) => negb (Nat.eqb k (n_main (fst e))) || d
+  end.
+
 (* ---- file names (_generate_warc_filename) ---- *)
 Definition s_meta : list N := Eval cbv in str "-meta".
 Definition s_warc : list N := Eval cbv in str ".warc".
@@ -133,12 +167,45 @@ Inductive start_result := StartRefused (* OSError('WARC file ... is incomplete.'
 Definition new_recorder_check (prefix : name) (s : fs) : start_result :=
   if journals_present prefix s then StartRefused else StartOk.
 
+(* ---- WARCRecorder.__init__ (log off, no cdx): start-up check first, then _start_new_warc_file ----
+     _check_journals_and_maybe_raise()
+     if max_size and appending: skip sequence numbers whose file exists
+     if not appending: truncate_file(A)         (open(A, 'wb'))
+     write_record(warcinfo)                                                   *)
+Fixpoint next_seq (fuel : nat) (prefix : name) (compress : bool) (s : fs) (seq : N) : N :=
+  match fuel with
+  | O => seq
+  | S f => if exists_file s (warc_filename prefix true false seq compress)
+           then next_seq f prefix compress s (seq + 1) else seq
+  end.
+
+Definition init_filename (prefix : name) (sized compress appending : bool) (s : fs) : name :=
+  let seq := if sized && appending then next_seq (S (List.length s)) prefix compress s 0 else 0 in
+  warc_filename prefix sized false seq compress.
+
+Definition recorder_init (prefix : name) (sized compress appending : bool) (info : list bytes)
+           (flt crash : option interrupt) (s : fs) : start_result * result :=
+  match new_recorder_check prefix s with
+  | StartRefused => (StartRefused, Raised s)
+  | StartOk =>
+      let A := init_filename prefix sized compress appending s in
+      let s1 := if appending then s else set s A [] in
+      (StartOk, write_record A info flt crash s1)
+  end.
+
 (* ---- comparison helpers for the correspondence harness (definitions only) ---- *)
 Definition fs_sub (a b : fs) : bool :=
   forallb (fun e => match lookup b (fst e) with Some c => leqb c (snd e) | None => false end) a.
 
 (* same files with the same contents, order irrelevant (keys are unique on both sides) *)
 Definition fs_eqb (a b : fs) : bool := fs_sub a b && fs_sub b a && Nat.eqb (List.length a) (List.length b).
+
+Definition init_eqb (r : start_result * result) (refused : bool) (expected : fs) : bool :=
+  match r with
+  | (StartRefused, Raised s) => refused && fs_eqb s expected
+  | (StartOk, Completed s) => negb refused && fs_eqb s expected
+  | _ => false
+  end.
 
 Definition result_eqb (r : result) (kind : N) (expected : fs) : bool :=
   match r, kind with
